@@ -37,7 +37,17 @@ def generate(rng, i):
     if i % 6 == 5:
         from tesim.props import c12_epi
         return c12_epi.generate(rng, i)
-    return gen_acct.generate(rng, PROFILE)
+    sc = gen_acct.generate(rng, PROFILE)
+    if i % 5 == 2:
+        # crossed books (bid above ask - the event class accepts them and feeds do produce them): a buy is still
+        # weighed and filled at the ask, a sell at the bid.  Decided without consuming draws of the generator's stream
+        import random
+        r = random.Random("cross:{}".format(sc["prng"]))
+        for op in sc["script"]:
+            if op["op"] == "quote" and op["bid"] == op["bid"] and op["ask"] == op["ask"] and op["bid"] < op["ask"] and r.random() < 0.5:
+                op["bid"], op["ask"] = op["ask"], op["bid"]
+                sc["crossed"] = True
+    return sc
 
 
 def execute(scenario):
